@@ -125,7 +125,7 @@ func c04Check(ctx *vfCtx, c c04Case) {
 			ctx.Fail("C04/fields-lost-on-match", "hash matches but JSON() = %q differs from the transmitted event minus stripped keys %s", ev.JSON(), jcanon(received))
 		}
 		ct, _ := received.get("content")
-		if view.Content != jcanon(ct) {
+		if !c04SameValue(view.Content, ct) {
 			ctx.Fail("C04/content-lost-on-match", "Content() = %s, want %s", view.Content, jcanon(ct))
 		}
 	} else {
@@ -138,7 +138,7 @@ func c04Check(ctx *vfCtx, c c04Case) {
 			ctx.Fail("C04/unredacted-material-observable"+kc+c05DiffTag(got, want), "content hash mismatch: JSON() = %q, want exactly the redacted form %s", ev.JSON(), jcanon(want))
 		}
 		wc, _ := want.get("content")
-		if view.Content != jcanon(wc) {
+		if !c04SameValue(view.Content, wc) {
 			ctx.Fail("C04/unredacted-content-observable"+kc, "content hash mismatch: Content() = %s, want %s", view.Content, jcanon(wc))
 		}
 		if len(ev.Unsigned()) != 0 {
@@ -182,6 +182,13 @@ func c04Check(ctx *vfCtx, c c04Case) {
 			ctx.Fail("C04/signature-lost-by-redactable-tampering"+kc, "only redactable material was altered but the signature no longer verifies: %v", serr)
 		}
 	}
+}
+
+// c04SameValue compares a canonical JSON text with a value, numbers numerically (redaction below
+// v6 re-encodes floats: 1.0 -> 1).
+func c04SameValue(text string, want jv) bool {
+	got, _, err := jparse([]byte(text))
+	return err == nil && jequal(got, want)
 }
 
 func mustGet(v jv, k string) jv { r, _ := v.get(k); return r }
